@@ -14,6 +14,11 @@ import (
 // targets that are not objects.
 var Scalars = map[string]any{"s": "str", "n": 1.5, "b": true, "a": []any{1.0, map[string]any{"title": "in-array"}}}
 
+// AbsentMembers: keywords a target most probably does not carry; in the typed model they are nil pointers, nil
+// unions, nil maps and nil slices respectively.
+var AbsentMembers = []string{"/not", "/additionalProperties", "/items", "/additionalItems", "/allOf", "/anyOf", "/oneOf", "/required", "/enum",
+	"/properties", "/patternProperties", "/definitions", "/dependencies", "/type", "/externalDocs", "/xml", "/tags", "/parameters", "/schema", "/headers", "/examples"}
+
 // OddIndexTails are appended to a healthy pointer to make it dangling through an index-like token.
 var OddIndexTails = []string{"/items/-1", "/allOf/-1", "/-1", "/-", "/items/-", "/items/99999999999999999999", "/allOf/18446744073709551616",
 	"/enum/-1", "/required/-1", "/parameters/-1", "/type/-1", "/anyOf/-2", "/oneOf/-", "/items/-9223372036854775808", "/tags/-1", "/schemes/-1"}
@@ -140,7 +145,20 @@ func Break(t *rapid.T, c GraphCase, permille int, refusePct int) (GraphCase, []s
 							// root the pointer lands on an unset member (if the target does carry it, the
 							// $ref is simply a healthy one - the model decides)
 							if strings.Contains(r, "#") {
-								m["$ref"] = r + []string{"/not", "/additionalProperties", "/items", "/additionalItems"}[Uniform(t, "absent", 4)]
+								am := AbsentMembers[Uniform(t, "absent", len(AbsentMembers))]
+								carried := false
+								if tp, err := model.Resolve(u, r); err == nil {
+									if tn, err := g.Get(tp); err == nil {
+										if tm, ok := tn.(map[string]any); ok {
+											_, carried = tm[am[1:]]
+										}
+									}
+								}
+								// (a member the target does carry would make a healthy $ref to something that is not an
+								// element - a map of schemas, a list: not what this fault is about)
+								if !carried {
+									m["$ref"] = r + am
+								}
 							}
 						}
 					}
